@@ -29,6 +29,8 @@ pub enum Case {
     Pair { chain: Vec<String>, r1: RangeSpec, r2: RangeSpec },
     /// header policy: `values` are the raw header values sent (0, 1 or more)
     Header { max: String, values: Vec<Vec<u8>> },
+    /// the concrete Gallina semver model against the crate
+    Semver { a: String, b: String },
 }
 
 async fn handler(_rqctx: RequestContext<()>) -> Result<HttpResponseOk<()>, HttpError> {
@@ -77,7 +79,7 @@ fn parse_chain(chain: &[String]) -> Vec<Version> {
     chain.iter().map(|s| Version::parse(s).expect("chain version")).collect()
 }
 
-pub fn exec(case: &Case) -> Line {
+pub fn exec(case: &Case) -> Vec<Line> {
     match case {
         Case::Range { chain, r } => {
             let vs = parse_chain(chain);
@@ -107,14 +109,14 @@ pub fn exec(case: &Case) -> Line {
                 g_bool(none_bit)
             );
             let nontrivial = r.kind != "all";
-            Line {
+            vec![Line {
                 group: "range",
                 case: serde_json::to_value(case).unwrap(),
                 obs: json!({"constructible": constructible, "matches": bits, "match_none": none_bit}),
                 coq,
                 tags: vec![format!("range:{}", r.kind)],
                 nontrivial,
-            }
+            }]
         }
         Case::Pair { chain, r1, r2 } => {
             let vs = parse_chain(chain);
@@ -139,14 +141,14 @@ pub fn exec(case: &Case) -> Line {
                 g_bool(c12),
                 g_bool(c21)
             );
-            Line {
+            vec![Line {
                 group: "pair",
                 case: serde_json::to_value(case).unwrap(),
                 obs: json!({"conflict12": c12, "conflict21": c21}),
                 coq,
                 tags: vec![format!("pair:{}/{}", r1.kind, r2.kind)],
                 nontrivial: r1.kind != "all" && r2.kind != "all",
-            }
+            }]
         }
         Case::Header { max, values } => {
             let maxv = Version::parse(max).expect("max version");
@@ -221,14 +223,63 @@ pub fn exec(case: &Case) -> Line {
                 (Ok(_), _) => "header:accepted",
                 (Err(_), _) => "header:refused",
             };
-            Line {
-                group: "header",
+            let coq_s = format!(
+                "(CHeaderS {} {} {})",
+                hdr,
+                g_bytes(max.as_bytes()),
+                match &r {
+                    Ok(v) => format!("(Ok {})", g_str(&v.to_string())),
+                    Err(e) => format!("(Err {})", e.status_code.as_u16()),
+                }
+            );
+            vec![
+                Line {
+                    group: "header",
+                    case: serde_json::to_value(case).unwrap(),
+                    obs: obs_json.clone(),
+                    coq,
+                    tags: vec![tag.to_string(), format!("representable:{}", representable)],
+                    nontrivial: first.is_some(),
+                },
+                Line {
+                    group: "header-concrete-semver",
+                    case: serde_json::to_value(case).unwrap(),
+                    obs: obs_json,
+                    coq: coq_s,
+                    tags: vec![],
+                    nontrivial: false,
+                },
+            ]
+        }
+        Case::Semver { a, b } => {
+            let pa = Version::parse(a).ok();
+            let pb = Version::parse(b).ok();
+            let code = |o: std::cmp::Ordering| match o {
+                std::cmp::Ordering::Less => 0u8,
+                std::cmp::Ordering::Equal => 1,
+                std::cmp::Ordering::Greater => 2,
+            };
+            let (ord, prec) = match (&pa, &pb) {
+                (Some(x), Some(y)) => (Some(code(x.cmp(y))), Some(code(x.cmp_precedence(y)))),
+                _ => (None, None),
+            };
+            let coq = format!(
+                "(CSemver {} {} {} {} {} {})",
+                g_str(a),
+                g_str(b),
+                g_bool(pa.is_some()),
+                g_bool(pb.is_some()),
+                g_opt(&ord, |x| x.to_string()),
+                g_opt(&prec, |x| x.to_string())
+            );
+            vec![Line {
+                group: "semver-model",
                 case: serde_json::to_value(case).unwrap(),
-                obs: obs_json,
+                obs: json!({"parses": [pa.is_some(), pb.is_some()], "ord": ord, "prec": prec}),
                 coq,
-                tags: vec![tag.to_string(), format!("representable:{}", representable)],
-                nontrivial: first.is_some(),
-            }
+                tags: vec![format!("semver:{}", if ord.is_some() { "both-parse" } else { "reject" })],
+                nontrivial: a != b,
+            }]
         }
     }
 }
@@ -365,7 +416,70 @@ pub fn gen(opts: &Opts) -> Vec<Case> {
             cases.push(Case::Header { max: max.to_string(), values });
         }
     }
+    // the concrete semver model against the crate: strings from a grammar of
+    // edge cases (numeric vs alphanumeric identifiers, leading zeros, build
+    // pieces, u64 bounds, junk)
+    let n = if opts.thorough { 6000 } else { 400 };
+    for _ in 0..n {
+        let a = semver_string(&mut rng);
+        let b = if rng.chance(1, 4) { mutate(&mut rng, &a) } else { semver_string(&mut rng) };
+        cases.push(Case::Semver { a, b });
+    }
     cases
+}
+
+fn semver_string(rng: &mut Rng) -> String {
+    let num = |rng: &mut Rng| -> String {
+        match rng.below(8) {
+            0 => "0".into(),
+            1 => "18446744073709551615".into(),
+            2 => "18446744073709551616".into(),
+            3 => "01".into(),
+            _ => rng.below(12).to_string(),
+        }
+    };
+    let ident = |rng: &mut Rng| -> String {
+        (*rng.pick(&[
+            "0", "1", "9", "10", "00", "01", "a", "A", "alpha", "beta", "rc", "-", "a-b", "0a", "00a", "x1",
+            "99999999999999999999999", "", "é", "b7",
+        ]))
+        .to_string()
+    };
+    let mut s = format!("{}.{}.{}", num(rng), num(rng), num(rng));
+    if rng.chance(1, 2) {
+        let k = rng.range(1, 3);
+        s.push('-');
+        s.push_str(&(0..k).map(|_| ident(rng)).collect::<Vec<_>>().join("."));
+    }
+    if rng.chance(1, 3) {
+        let k = rng.range(1, 3);
+        s.push('+');
+        s.push_str(&(0..k).map(|_| ident(rng)).collect::<Vec<_>>().join("."));
+    }
+    if rng.chance(1, 10) {
+        s = mutate(rng, &s);
+    }
+    s
+}
+
+fn mutate(rng: &mut Rng, s: &str) -> String {
+    let mut b: Vec<char> = s.chars().collect();
+    match rng.below(4) {
+        0 if !b.is_empty() => {
+            let i = rng.below(b.len());
+            b.remove(i);
+        }
+        1 => {
+            let i = rng.below(b.len() + 1);
+            b.insert(i, *rng.pick(&['.', '-', '+', '0', '1', 'a', ' ', 'v']));
+        }
+        2 if !b.is_empty() => {
+            let i = rng.below(b.len());
+            b[i] = *rng.pick(&['.', '-', '+', '0', '9', 'z']);
+        }
+        _ => {}
+    }
+    b.into_iter().collect()
 }
 
 pub fn run(opts: &Opts, replay: Option<Vec<serde_json::Value>>, out: &mut dyn Write) {
@@ -374,6 +488,8 @@ pub fn run(opts: &Opts, replay: Option<Vec<serde_json::Value>>, out: &mut dyn Wr
         None => gen(opts),
     };
     for c in &cases {
-        emit(out, &exec(c));
+        for l in exec(c) {
+            emit(out, &l);
+        }
     }
 }
